@@ -70,7 +70,7 @@ func (e *Engine) generate(cfg RunConfig) []string {
 		keys = cfg.Funcs
 	} else {
 		for k, c := range e.contracts {
-			if c.Kind == "func" && hasPropClause(c, cfg.Prop) {
+			if c.Kind == "func" && (hasPropClause(c, cfg.Prop) || (e.propAll[cfg.Prop] && c.Unverified == "")) {
 				keys = append(keys, k)
 			}
 		}
